@@ -225,6 +225,8 @@ def run(ctx):
     for i in range(9 if quick else 30):
         pattern = ('chain', 'mixed-sign', 'factor', 'near-dup', 'monotone')[i % 5]
         jobs.append((2, pattern, ('center', 'direct', 'regular')[i % 3], 1, ctx.seed * 32452843 + i, 1500 if quick else 6000))
+    for i in range(3 if quick else 9):      # tables with strong lower-tail dependence (the Clayton family is selected, theta around 9)
+        jobs.append((2, 'clayton-strong', ('center', 'direct', 'regular')[i % 3], 1, ctx.seed * 32452843 + 500 + i, 1500 if quick else 6000))
     # larger samples from strongly dependent, truncated vines (inverted probabilities reach the clamps): schema only
     for i, sd in enumerate((314, 1022, 77) if quick else (314, 1022, 77, 5, 640, 911, 2048, 4001)):
         for vt in ('center', 'direct', 'regular'):
